@@ -84,7 +84,7 @@ def run_cases(ctx, n_libs: int, per_lib: int, focus: str):
                 return a
 
         gen = TypedGen(rng, lib)
-        reqs, keep, spec_reqs = [], [], []
+        reqs, keep, spec_reqs, eff_reqs = [], [], [], []
         for _ in range(per_lib):
             op = rng.choice(["Select", "Select", "Where", "SelectMany"])
             try:
@@ -157,6 +157,7 @@ def run_cases(ctx, n_libs: int, per_lib: int, focus: str):
                 continue
             reqs.append(("streamOp", [model, op, '(cls "Evt" ())', lam_enc]))
             spec_reqs.append(("streamOpTy", [model, op, '(cls "Evt" ())', lam_enc]))
+            eff_reqs.append(("streamOpEff", [model, '(cls "Evt" ())', lam_enc]))
             if got[0] == "ok":
                 s = got[1]
                 node = s.query_ast.args[0]
@@ -186,4 +187,18 @@ def run_cases(ctx, n_libs: int, per_lib: int, focus: str):
             ctx.dist["spec:item-type-compared"] += 1
             if (st, payload) != ("ok", impl_ty):
                 ctx.disagree("streamOpTy(spec)", {k: v for k, v in case.items() if k != "class_model"}, impl_ty[:300], (st, payload[:300]))
+        # ---- the declared callback sites `effOf` (the specification of C09, Model/EffectSpec.lean) against the
+        # implementation: whenever the implementation accepts the lambda, the MetaData on the source chain and the callbacks
+        # that fired are the ones the specification lists for the lambda as written, in the same order
+        eres = ctx.driver.batch(eff_reqs)
+        for (case, want), (st, payload) in zip(keep, eres):
+            if want[0] != "ok":
+                continue
+            parts = sparse(want[1])
+            impl_eff = render([parts[2], parts[3]])
+            ctx.dist["spec:callback-sites-compared"] += 1
+            if len(parts[3]) > 0:
+                ctx.dist["spec:callback-sites-nonempty"] += 1
+            if (st, payload) != ("ok", impl_eff):
+                ctx.disagree("streamOpEff(spec)", {k: v for k, v in case.items() if k != "class_model"}, impl_eff[:300], (st, payload[:300]))
     reset_registries()
